@@ -19,6 +19,8 @@ func init() {
 			{"IMPORT-STRICT", ruleImportStrict},
 			{"IMPORT-IDMAP", ruleImportIDMap},
 			{"EXPORT-IDMAP", ruleExportIDMap},
+			{"EXPORT-SELFREF", ruleExportSelfRef},
+			{"NORMALISE-IDENTITY", ruleNormaliseIdentity},
 			{"ERRFLOW", func(c *eng.Ctx) {
 				ruleErrFlowAll(c, "ERRFLOW", []string{"internal/db.(*DB).basicImport", "internal/db.(*DB).basicExport", "internal/db.writeString"})
 			}},
@@ -336,4 +338,76 @@ func ruleExportIDMap(c *eng.Ctx) {
 		return true
 	})
 	c.Check(writes >= 1 && reads >= 1, rule, "basicExport:key-change-map", fi.Decl.Pos(), "changed ids are recorded and applied to foreign keys", fmt.Sprintf("key-change map writes=%d reads=%d", writes, reads))
+}
+
+// ruleExportSelfRef: while exporting, a document is recognised as referencing itself by comparing
+// identifiers of the *source* database (the stored foreign key, or the fetched related document's
+// id, against the document's own id). A value taken from keyChangeCache is an identifier of the
+// *target* database (the id the related document will have after import) and must not take part in
+// that test: after an update the two differ, the self reference is missed and the exported ids no
+// longer match each other.
+func ruleExportSelfRef(c *eng.Ctx) {
+	const rule = "EXPORT-SELFREF"
+	fi := c.Anchor(rule, "internal/db.(*DB).basicExport")
+	if fi == nil {
+		return
+	}
+	info := fi.Pkg.TypesInfo
+	// variables read out of keyChangeCache
+	remapped := map[types.Object]bool{}
+	var cache types.Object
+	ast.Inspect(fi.Decl.Body, func(m ast.Node) bool {
+		as, ok := m.(*ast.AssignStmt)
+		if !ok || len(as.Rhs) != 1 {
+			return true
+		}
+		if ix, ok := ast.Unparen(as.Rhs[0]).(*ast.IndexExpr); ok {
+			if mt, ok := info.TypeOf(ix.X).Underlying().(*types.Map); ok && mt.Key().String() == "string" && mt.Elem().String() == "string" {
+				cache = eng.ObjOf(info, ix.X)
+				if o := eng.ObjOf(info, as.Lhs[0]); o != nil {
+					remapped[o] = true
+				}
+			}
+		}
+		return true
+	})
+	if cache == nil {
+		c.Unknown(rule, "basicExport:key-change-cache", fi.Decl.Pos(), "anchor-unresolved: the old→new id map")
+		return
+	}
+	n := 0
+	ast.Inspect(fi.Decl.Body, func(m ast.Node) bool {
+		is, ok := m.(*ast.IfStmt)
+		if !ok {
+			return true
+		}
+		sets := false
+		for _, st := range is.Body.List {
+			if as, ok := st.(*ast.AssignStmt); ok && len(as.Lhs) == 1 && len(as.Rhs) == 1 {
+				if o := eng.ObjOf(info, as.Lhs[0]); o != nil && o.Name() == "isSelfReference" {
+					if tv, ok := info.Types[as.Rhs[0]]; ok && tv.Value != nil && tv.Value.ExactString() == "true" {
+						sets = true
+					}
+				}
+			}
+		}
+		if !sets {
+			return true
+		}
+		n++
+		usesRemapped := false
+		ast.Inspect(is.Cond, func(x ast.Node) bool {
+			if id, ok := x.(*ast.Ident); ok && remapped[info.Uses[id]] {
+				usesRemapped = true
+			}
+			if ix, ok := x.(*ast.IndexExpr); ok && eng.ObjOf(info, ix.X) == cache {
+				usesRemapped = true
+			}
+			return true
+		})
+		c.Check(!usesRemapped, rule, fmt.Sprintf("basicExport:self-reference-test#%d:source-ids-only", n), is.Cond.Pos(), "the self-reference test compares identifiers of the source database",
+			"the self-reference test ("+eng.ExprStr(is.Cond)+") uses an identifier read from the old→new id map: for a document that was updated (its new id differs) the self reference is missed, its _docIDNew is computed with the relation included and the foreign keys written for its referrers match no exported document")
+		return true
+	})
+	c.Floor(rule, n, 2)
 }
